@@ -30,13 +30,15 @@ DOCS = [
                      [['e', 'in', ['R'], []]]],
                     ['foreign', 'F', [['fp', ['I'], 'provides', False]]]]],
      ['subint', 'S', 0, 9],
+     ['ns', ['A', 'B'], [['enum', 'Deep', ['P']]]],           # namespace A.B written as ONE multi-identifier namespace
      ['component', 'C', [['p', ['A', 'I'], 'provides', False]]],
      ['system', 'Sys', [['sp', ['A', 'I'], 'provides', False]], [['c', ['C']]], [[['sp', None], ['p', 'c']]]],
      ['filename', 'd0.dzn']],
     [['ns', ['A'], [['enum', 'E', ['Y', 'Z']], ['extern', 'T', 'long'],
                     ['interface', 'I', [['enum', 'R', ['No', 'Ok']], ['enum', 'R2', ['Q']]],
                      [['e', 'in', ['void'], [['a', ['T'], 'in']]], ['f', 'out', ['void'], []]]],
-                    ['foreign', 'F', []]]],
+                    ['foreign', 'F', []],
+                    ['ns', ['B'], [['enum', 'Deep', ['Q', 'R']]]]]],      # ... and as a namespace nested in A
      ['component', 'C', []], ['import', 'x.dzn'], ['subint', 'S', 2, 3],
      ['system', 'Sys', [], [['c', ['C']], ['f', ['A', 'F']]], []]],
     # fails half-way, INSIDE a (nested) namespace, after some declarations were already parsed
@@ -48,6 +50,20 @@ DOCS = [
 EXPECTED = [D.expected(DOCS[0]), D.expected(DOCS[1]), None, D.expected(DOCS[3])]
 
 _TMP = {}
+_ALONE = {}
+
+
+def alone(doc):
+    """The result of parsing the document alone with a fresh parser (computed before any history of this process);
+    compared with == and repr(), i.e. in EVERY attribute, also those the normal form of docgen does not print."""
+    if not _ALONE:
+        from dznpy.json_ast import DznJsonAst  # pylint: disable=import-outside-toplevel
+        for k, d in enumerate(DOCS):
+            if EXPECTED[k] is not None:
+                with contextlib.redirect_stdout(io.StringIO()):
+                    _ALONE[k] = DznJsonAst(json.dumps(D.to_json(d))).process()
+    return _ALONE[doc]
+
 
 
 def doc_file(i):
@@ -99,6 +115,7 @@ def run_history(ops):
     returned = []   # (op index, slot, object, snapshot normal form)
     errors = collections.defaultdict(set)
     sink = io.StringIO()
+    alone(0)
     with contextlib.redirect_stdout(sink):
         for i, op in enumerate(ops):
             kind, slot = op[0], op[1]
@@ -139,6 +156,10 @@ def run_history(ops):
                         key = 'reprocess-accumulates' if nth > 1 and _doubled(EXPECTED[doc], got) \
                             else f'result-differs:{cont}'
                         out.append((key, f'op {i} {op}: {what} | history={ops}'))
+                    elif res != alone(doc) or repr(res) != repr(alone(doc)):
+                        out.append(('result-differs-from-parsing-alone-in-an-attribute',
+                                    f'op {i} {op}: same declarations, but the result does not compare equal to the one '
+                                    f'of a fresh parser (e.g. the namespace-tree links) | history={ops}'))
                     returned.append((i, slot, res, got))
             except Exception as exc:  # pylint: disable=broad-except
                 out.append((f'exception:{type(exc).__name__}', f'op {i} {op}: {exc!r} history={ops}'))
